@@ -295,5 +295,5 @@ func (k Keeper) IBCCoinRefund(ctx context.Context, coin sdk.Coin, holder sdk.Acc
 }
 
 func (k Keeper) AfterIBCAckSuccess(ctx sdk.Context, sourceChannel string, sequence uint64) {
-	k.erc20Keeper.DeleteOutgoingTransferRelation(ctx, sourceChannel, sequence)
+	k.erc20Keeper.DeleteIBCTransferRelation(ctx, sourceChannel, sequence)
 }
